@@ -155,6 +155,17 @@ fn split_runs<T: Copy>(r: Vec<(u32, T)>, rng: &mut Rng) -> Vec<(u32, T)> {
             left -= take;
         }
     }
+    // half of the split tables also carry EMPTY runs (count 0): redundant but consistent - the
+    // counts still add up - placed in front, between and behind the real runs, each with the
+    // value of some other run so that a reader that lets an empty run cover a sample shows
+    if !out.is_empty() && rng.bool() {
+        let k = 1 + rng.usize_below(3);
+        for _ in 0..k {
+            let v = out[rng.usize_below(out.len())].1;
+            let pos = rng.usize_below(out.len() + 1);
+            out.insert(pos, (0, v));
+        }
+    }
     out
 }
 
@@ -271,7 +282,23 @@ fn build_trak(m: &Movie, t: &MTrack, chunk_offsets: &[u64]) -> BoxT {
     }
     let mut mdia = BoxT::new(b"mdia");
     mdia.push(enc_mdhd(&MdhdF { version: if dur > u32::MAX as u64 { 1 } else { 0 }, timescale: t.timescale, duration: dur, lang: t.lang, ..Default::default() }));
-    mdia.push(enc_hdlr(&HdlrF { handler: handler_of(t.codec), name: b"VerifHandler".to_vec(), ..Default::default() }));
+    // handler names: mostly an ordinary one; some tracks carry a name that looks like a
+    // QuickTime counted string (first byte == number of bytes that follow), with an ASCII or a
+    // two-byte first character - a conforming C string all the same
+    let name: Vec<u8> = match (t.timescale as usize + t.samples.len()) % 7 {
+        0 => {
+            let mut v = "\u{c3}".as_bytes().to_vec(); // C3 83
+            v.extend(std::iter::repeat(b'x').take(0xC3 - 1));
+            v
+        }
+        1 => {
+            let mut v = vec![b'0'];
+            v.extend(std::iter::repeat(b'y').take(b'0' as usize));
+            v
+        }
+        _ => b"VerifHandler".to_vec(),
+    };
+    mdia.push(enc_hdlr(&HdlrF { handler: handler_of(t.codec), name, ..Default::default() }));
     let mut minf = BoxT::new(b"minf");
     match t.codec {
         Codec::Avc | Codec::Hevc | Codec::Vp9 => {
